@@ -556,8 +556,6 @@ func c09IsolationAcrossDatabases(r *verdict.Run, runs int) {
 			wg.Add(1)
 			go writer(w)
 		}
-		var iwg sync.WaitGroup
-		_ = iwg
 		for k := 0; k < 3; k++ {
 			wg.Add(1)
 			go intruder(k)
